@@ -266,3 +266,111 @@ def origin_key(body, defs, place):
 
 def line_of(t):
     return t.get("line", 0)
+
+
+# ---------------------------------------------------------------------------
+# Gates: a switch on the discriminant of a Result/Option/ControlFlow that was
+# produced (through map_err / ok_or_else / Try::branch ...) by a call.
+
+GOOD_DISCR = {
+    "ControlFlow": 0,  # Continue
+    "Result": 0,       # Ok
+    "Option": 1,       # Some
+}
+
+
+def value_chain(body, defs, local, depth=0, seen=None):
+    """Calls a value passed through, newest first: list of (bb, callee)."""
+    if seen is None:
+        seen = set()
+    if local in seen or depth > 30:
+        return []
+    seen.add(local)
+    ds = defs.whole_defs(local)
+    if len(ds) != 1:
+        return []
+    bi, si, kind, s = ds[0]
+    if kind == "call":
+        out = [(bi, callee(s), callee_def(s))]
+        # follow the first place argument (receiver / the wrapped value)
+        for a in s["args"]:
+            if is_place_op(a):
+                out += value_chain(body, defs, a[1][0], depth + 1, seen)
+                break
+        return out
+    if kind == "assign":
+        rv = s["rv"]
+        if rv["k"] in ("use", "cast") and is_place_op(rv["o"]):
+            return value_chain(body, defs, rv["o"][1][0], depth + 1, seen)
+        if rv["k"] in ("ref", "discr"):
+            return value_chain(body, defs, rv["p"][0], depth + 1, seen)
+    return []
+
+
+def type_family(ty):
+    for fam in ("ControlFlow", "Result", "Option"):
+        if ("::%s<" % fam) in ty or ty.startswith(fam + "<"):
+            # outermost constructor decides
+            head = ty.split("<", 1)[0]
+            if head.endswith(fam):
+                return fam
+    return None
+
+
+def gates(body, defs=None):
+    """All discriminant switches with the chain of calls their scrutinee came
+    from.  Each: dict(bb, chain, family, good, bad) where good/bad are target
+    block lists."""
+    defs = defs or Defs(body)
+    out = []
+    for bi, b in enumerate(body.blocks):
+        t = b["term"]
+        if t["k"] != "switch":
+            continue
+        l = op_local(t["o"])
+        if l is None:
+            continue
+        ds = defs.whole_defs(l)
+        if len(ds) != 1 or ds[0][2] != "assign" or ds[0][3]["rv"]["k"] != "discr":
+            continue
+        rv = ds[0][3]["rv"]
+        fam = type_family(rv.get("ty", ""))
+        chain = value_chain(body, defs, rv["p"][0])
+        tg = dict((v, tb) for v, tb in t["targets"])
+        good, bad = [], []
+        if fam is not None:
+            gv = GOOD_DISCR[fam]
+            for v, tb in t["targets"]:
+                (good if v == gv else bad).append(tb)
+            # 'otherwise' covers the remaining variant(s)
+            if gv not in tg:
+                good.append(t["otherwise"])
+            else:
+                ob = body.blocks[t["otherwise"]]
+                if not (ob["term"]["k"] == "unreachable" and not ob["stmts"]):
+                    bad.append(t["otherwise"])
+        out.append({"bb": bi, "chain": chain, "family": fam, "good": good, "bad": bad, "place": rv["p"]})
+    return out
+
+
+def gated_by(body, gate, target_bb):
+    """target_bb is reachable only through the good edge of the gate."""
+    good = set()
+    for g in gate["good"]:
+        good |= reachable_from(body, g)
+    badr = set()
+    for g in gate["bad"]:
+        badr |= reachable_from(body, g)
+    return target_bb in good and target_bb not in badr
+
+
+def find_gates_for_call(body, all_gates, call_bb):
+    return [g for g in all_gates if any(c[0] == call_bb for c in g["chain"])]
+
+
+def agg_sites(body, adt):
+    """(bb, stmt) of aggregate constructions of the given ADT path."""
+    for bi, b in enumerate(body.blocks):
+        for s in b["stmts"]:
+            if s["k"] == "assign" and s["rv"]["k"] == "agg" and s["rv"].get("adt") == adt:
+                yield bi, s
